@@ -152,7 +152,7 @@ P = D.DesignProperty(
     rule=("case = (factors, derived factors, law, left block tree); the right side is derived from the left by the documented "
           "equivalence; non-trivial = at least 2 sequences and the law's distinguishing ingredient is present (>= 2 crossings or a constraint "
           "for multi=merge, a combinator constraint for repeat=merge); distinct = distinct case JSON"),
-    cfg_quick=CFG, n_quick=60, n_thorough=2000, case_limit=(20, 120), strategy=law_cases, uses_reference=False,
+    cfg_quick=CFG, n_quick=60, n_thorough=700, case_limit=(20, 120), strategy=law_cases, uses_reference=False,
     limits={"max_T": {"quick": 8, "thorough": 10}, "max_models": {"quick": 1500, "thorough": 12000}},
     assumptions=["crossings of one MultiCrossBlock are disjoint (Merge documents 'distinct sets of factors in their crossings')",
                  "Repeat's constraints never contain Exclude (documented restriction)"])
